@@ -50,6 +50,8 @@ def compare(res, prop, suite, cases, impl, model):
             res.count('pattern:' + ' '.join(i.split(' ')[:2]) if i.startswith('err') else 'pattern:ok')
         if op == 'check':
             res.count('check:' + i.split(' ', 1)[0])
+        if op == 'intent' and m.startswith('agree '):
+            res.count('intent:' + m[6:])
         for cmpr in cmps:
             if not cmpr.applies(c):
                 continue
